@@ -51,6 +51,9 @@ type SignCase struct {
 	RecordSize int      `json:"mi_record_size"` // 0: flag omitted
 	Win        Window   `json:"window"`
 	Validity   string   `json:"validity_url"` // "": flag omitted
+	// InPlace: the bundle is signed in place (-o names the same file as -i), which the tool supports
+	// because it reads its whole input before it creates the output.
+	InPlace bool `json:"in_place,omitempty"`
 }
 
 func pemOK(form, pass string, ec bool) bool {
@@ -101,6 +104,13 @@ var signProp = vh.Define("C20", "sign-sections", func(c SignCase, r *vh.R) {
 	}
 	must(os.WriteFile(filepath.Join(tmp, "key.pem"), keyPEM(fx.Key, c.Pem, c.Pass), 0o600))
 	args := []string{"signatures-section", "-i", "out.wbn", "-o", "signed.wbn", "-certificate", "cert.cbor", "-privateKey", "key.pem"}
+	if c.InPlace {
+		in, err := os.ReadFile(filepath.Join(tmp, "out.wbn"))
+		must(err)
+		must(os.WriteFile(filepath.Join(tmp, "signed.wbn"), in, 0o644))
+		args[2] = "signed.wbn"
+		r.Class("signed-in-place")
+	}
 	if c.Validity != "" {
 		args = append(args, "-validityUrl", c.Validity)
 	}
@@ -273,6 +283,7 @@ func TestPropSignSections(t *testing.T) {
 		}
 		c.Win = genWindow(t)
 		c.Validity = rapid.SampledFrom([]string{"https://a.example/validity", "", u.Scheme + "://" + u.Host + "/resource.validity.msg", "https://a.example/v?x=1&y=%20"}).Draw(t, "validity")
+		c.InPlace = rapid.IntRange(0, 3).Draw(t, "inplace") == 0
 		return c
 	})
 }
@@ -281,6 +292,7 @@ func fixedSignCases() []SignCase {
 	tr := fixedTrees()
 	return []SignCase{
 		{Tree: tr[0], Fixture: 0, ChainLen: 2, Pem: "sec1", OCSP: vh.B("ocsp\n"), RecordSize: 4096, Win: Window{DateAgo: 600, Expire: 7200, ExpireAs: "go"}, Validity: "https://a.example/validity"},
+		{Tree: tr[0], Fixture: 0, ChainLen: 1, Pem: "pkcs8", OCSP: vh.B("ocsp\n"), RecordSize: 16, Win: Window{DateAgo: 600, Expire: 7200, ExpireAs: "go"}, Validity: "https://a.example/validity", InPlace: true},
 		{Tree: tr[1], Fixture: 4, ChainLen: 1, Pem: "encrypted", Pass: "secret", OCSP: vh.B{0x30, 0x03, 0x0a, 0x01, 0x00}, RecordSize: 1, Win: Window{DateAgo: 5 * 24 * 3600, Expire: 7 * 24 * 3600, ExpireAs: "h", ZoneMin: 540}, Validity: "https://a.example/validity"},
 		{Tree: tr[2], Fixture: 5, ChainLen: 2, Pem: "pkcs8", OCSP: vh.B("x"), RecordSize: 16384, Win: Window{DateAgo: -1}, Validity: ""},
 		{Tree: tr[3], Fixture: 0, ChainLen: 2, Pem: "pkcs8", OCSP: vh.B("x"), RecordSize: 0, Win: Window{DateAgo: 120, Expire: 900, ExpireAs: "m"}, Validity: "https://a.example/validity"}, // c.example not covered by fixture 0
